@@ -12,16 +12,21 @@ import (
 // ent is one member of the fixed PKI pool (see pkidata.go / mkpki.go).
 type ent struct {
 	name string
-	key  crypto.Signer         // private key in the representation zcrypto uses (zcrypto/rsa for RSA)
-	cert *x509.Certificate     // parsed by the code under test (needed as API argument)
-	std  *stdx509.Certificate  // parsed by the standard library (independent reference)
+	key  crypto.Signer        // private key in the representation zcrypto uses (zcrypto/rsa for RSA)
+	cert *x509.Certificate    // parsed by the code under test (needed as API argument)
+	std  *stdx509.Certificate // parsed by the standard library (independent reference)
 	der  []byte
 }
 
 const (
-	nCA    = 4 // pool[0..3]: self-signed CAs: rsa1024, rsa2048, p256, p384
-	idxEd  = 8 // pool[8]: Ed25519
+	nCA   = 6  // pool[0..5]: self-signed CAs: rsa1024, rsa2048, p256, p384, p224, p521
+	idxEd = 12 // pool[12]: Ed25519
 )
+
+// poolOrder maps a pool index to its pkiData entry: CAs first, then the responder of CA i at nCA+i, Ed25519 last.
+// Responder key types (by CA): p256, rsa2048, rsa1024, p384, p521, p224 — so that RSA and every curve the creation
+// API accepts (P-224, P-256, P-384, P-521) occurs both as issuer key and as delegated-responder key.
+var poolOrder = []int{0, 1, 2, 3, 9, 10, 4, 5, 6, 7, 11, 12, 8}
 
 var (
 	poolOnce sync.Once
@@ -30,7 +35,11 @@ var (
 
 func pool() []*ent {
 	poolOnce.Do(func() {
-		for _, d := range pkiData {
+		if len(poolOrder) != len(pkiData) || len(poolOrder) != idxEd+1 {
+			panic("c13: poolOrder does not cover pkiData")
+		}
+		for _, di := range poolOrder {
+			d := pkiData[di]
 			kb, err := hex.DecodeString(d[1])
 			if err != nil {
 				panic(err)
